@@ -28,7 +28,10 @@ RULE = (
     "(<= 30 files, 2-4 levels, names from a per-case word pool with suffix-sharing words song/long/along, "
     "live/alive/olive, 01/101, accents, CJK, mixed case, separators space _ - . ( ) [ ] ' &) and a real "
     "SharesManager. Operations: add_shared_directory (first/child/parent/middle/sibling, EVERYONE/FRIENDS/USERS), "
-    "remove, update, scan_directory_files, scan, disk mutations (create/delete/touch/rename/new subdir), "
+    "remove, update, scan_directory_files, scan, disk mutations (create/delete/touch/rename/new subdir; in ~1/3 of "
+    "the initial trees and of the disk operations also a directory entry that is listed but cannot be stat'ed - a "
+    "dangling symlink or a symlink loop with a music-like name, placed where regular files are listed after it in "
+    "os.scandir order: a scan has to skip exactly that entry and keep the rest of the directory), "
     "load_from_settings after editing settings.shares.directories, SharesShelveCache write + load_data into a new "
     "manager. After every operation 5-20 queries built from the tree's own words (exact words, non-word "
     "substrings, wildcard suffixes shared by several words, punctuated spans, mixed case, excludes, 2-4 term "
@@ -54,15 +57,18 @@ ASSUMPTIONS = [
     "alphabet restricted to characters whose str.lower() is 1:1 and for which str.isalnum() equals [^\\W_] "
     "(ASCII, é É ü Ü ñ Ñ, CJK ideographs); NFC file names",
     "a term containing punctuation is matched as the whole term string with word boundaries at its two ends only",
-    "the real file system of the temp dir is the disk truth (os.walk, no symlinks, Linux, case-sensitive)",
+    "the real file system of the temp dir is the disk truth (os.walk, Linux, case-sensitive); a listed "
+    "non-directory entry is a file on disk iff os.stat succeeds on it; the only symlinks generated are dangling "
+    "ones and self-loops (how symlinks to real files or directories are shared is outside the statement)",
     "attribute scanning (mutagen) is executed by scan() but its results are not judged",
     "between scans the index is the last scanned snapshot: disk mutations do not change the expectation until "
     "the region is rescanned",
     "the harness does not keep references to removed SharedDirectory objects and does not force a GC",
 ]
-MIN_OBS = {'quick': {'queries_judged': 20000, 'queries_nonempty': 7000, 'index_checks': 4000, 'stats_checks': 4000},
+MIN_OBS = {'quick': {'queries_judged': 20000, 'queries_nonempty': 7000, 'index_checks': 4000, 'stats_checks': 4000,
+                     'scanned_dirs_with_file_listed_after_unstatable': 400},
            'thorough': {'queries_judged': 400000, 'queries_nonempty': 130000, 'index_checks': 80000,
-                        'stats_checks': 80000}}
+                        'stats_checks': 80000, 'scanned_dirs_with_file_listed_after_unstatable': 30000}}
 SHARD_TIMEOUT = {'quick': 600, 'thorough': 5400}
 WHAT_FAILS = {
     'query:missing:wildcard-multi-suffix': "a wildcard term whose suffix ends >= 2 different indexed words returns "
